@@ -36,6 +36,19 @@ def run(res, props_file, pinned, tag, what):
         for c in onchain_cases:
             for v in c.get("c11_violations", [])[:1]:
                 found.append(("onchain", c["id"], v, {"policy": c["policy"], "transaction": c["transaction"], "steps": c["steps"]}))
+    # the chain tip as the daemon keeps it: the tracker domain's handler histories (AddBlock / RemoveBlock / streamed
+    # blocks as protocol messages, restarts through HandlerBuilder::build) compare the stored tracker entry with every
+    # acknowledged block and the restarted tracker with the stored one
+    tracker_c11 = []
+    if tag == "C11":
+        th11 = lib.run_harness("tracker", "handler", res.seed + 15, 60 if quick else 800, res.tier, timeout=3000)
+        tracker_c11 = th11["CASE"]
+        for c in tracker_c11:
+            for key, what in (("store_violations", "the stored chain tracker disagrees with a block request that was acknowledged"),
+                              ("restart_violations", "a restart from the store moved the chain tracker")):
+                for v in c.get(key, [])[:1]:
+                    found.append(("tracker", c.get("id"), "%s: %s" % (what, str(v)[:400]),
+                                  {k: c[k] for k in c if not k.startswith("coq")}))
     # the chain-tracking state: the tracker domain (C13's harness) snapshots tip, height, remembered headers, watches
     # and the monitors around every refused block request
     tracker_cases = []
@@ -96,6 +109,7 @@ def run(res, props_file, pinned, tag, what):
         "samples": [{"domain": "nodeops", "ops": ncases[0]["ops"][:10]}],
         "onchain_cases_with_restart_comparison": len(onchain_cases),
         "tracker_histories_with_refusal_snapshots": len(tracker_cases),
+        "tracker_handler_histories_with_store_and_restart_comparison": len(tracker_c11),
         "onchain_cases_with_refusal_snapshots": len(onchain_c10),
         "onchain_refusals_that_left_only_an_in_memory_fee_count": sum(len(c.get("c10_observations", [])) for c in onchain_c10),
         "requests_checked": requests,
